@@ -67,7 +67,7 @@ fn dir_org_shape<S: Src>(s: &mut S, spelling: u8, t0: u8, nonempty: bool) {
         s.note("nonempty", nonempty as i64);
         s.note_s("result", &format!("ok={} segments={} last.address={} last.empty={}", r.is_ok(), n_segments, addr, empty));
         let src = if spelling == 0 { format!(".org {}\nnop\n", v) } else { format!(".equ n = {}\n.org n\nnop\n", v) };
-        if v <= 64 {
+        {
             match avra_lib::builder::build_str(&src) {
                 Ok(b) => {
                     println!("NOTE: api_source={:?} code_len={}", src, b.code.len());
@@ -115,6 +115,40 @@ fn dir_segment_shape<S: Src>(s: &mut S, t0: u8, t1: u8, nonempty: bool) {
         (b.t, b.is_empty(), b.address)
     };
     let first_t = ctx.segments.borrow()[0].borrow().t;
+    #[cfg(not(kani))]
+    {
+        // public API: the same two directives with one item after each (if the first segment is
+        // non-empty), images compared with what the directives mean
+        let dir = [".cseg\n", ".dseg\n", ".eseg\n"];
+        let item = ["ser r16\n", ".byte 1\n", ".db 0xa5\n"];
+        let mut src = String::from(dir[t0 as usize]);
+        let mut code: Vec<u8> = vec![];
+        let mut ee: Vec<u8> = vec![];
+        let mut ram = 0u32;
+        let mut put = |t: u8, src: &mut String| {
+            src.push_str(item[t as usize]);
+            match t {
+                0 => code.extend([0x0f, 0xef]),
+                1 => ram += 1,
+                _ => ee.push(0xa5),
+            }
+        };
+        if nonempty {
+            put(t0, &mut src);
+        }
+        src.push_str(dir[t1 as usize]);
+        put(t1, &mut src);
+        match avra_lib::builder::build_str(&src) {
+            Ok(b) => {
+                println!("NOTE: api_source={:?} code={:02x?} eeprom={:02x?} ram_filling={}", src, b.code, b.eeprom, b.ram_filling);
+                if b.code != code || b.eeprom != ee || b.ram_filling != ram { println!("API-CONFIRMED") } else { println!("API-NOT-CONFIRMED") }
+            }
+            Err(e) => {
+                println!("NOTE: api_source={:?} Err({})", src, e);
+                println!("API-CONFIRMED");
+            }
+        }
+    }
     chk!(s, r.is_ok(), "C02: segment directive rejected");
     chk!(s, t == seg_type(t1) && empty && addr == 0, "C02: segment directive must leave an empty segment of the named kind");
     chk!(s, n_segments == if nonempty { 2 } else { 1 }, "C02: segment directive opened / did not open a segment");
